@@ -1615,14 +1615,6 @@ func (n *node) spawn(factory gen.ProcessFactory, options gen.ProcessOptionsExtra
 		important:   options.ImportantDelivery,
 	}
 
-	if options.Register != "" {
-		if _, exist := n.names.LoadOrStore(options.Register, p); exist {
-			return p.pid, gen.ErrTaken
-		}
-		p.name = options.Register
-		p.registered.Store(true)
-	}
-
 	// init mailbox
 	if options.MailboxSize > 0 {
 		p.fallback = options.Fallback
@@ -1644,6 +1636,16 @@ func (n *node) spawn(factory gen.ProcessFactory, options gen.ProcessOptionsExtra
 		Creation: n.creation,
 	}
 	p.pid = pid
+
+	// publish the name only now: from here on senders by name reach this
+	// process, so it must have a mailbox (and a pid) already
+	if options.Register != "" {
+		p.name = options.Register
+		p.registered.Store(true)
+		if _, exist := n.names.LoadOrStore(options.Register, p); exist {
+			return gen.PID{}, gen.ErrTaken
+		}
+	}
 
 	for k, v := range options.ParentEnv {
 		p.SetEnv(k, v)
